@@ -70,7 +70,9 @@ class parse_data(_ParseFn):
         name = BufSeq.fresh(run, 'name', 'memoryview')
         ck = run.choose([('content=None', True), ('content', True)], 'content')
         content = None if ck == 'content=None' else sub_view(run, wire, 'content')
-        return (name, Opaque('token', 'meta_info'), content, Opaque('token', 'sig_ptrs'))
+        return (name, SymObj(nf.MetaInfo, {}), content, SymObj(nf.SignaturePtrs, dict(signature_info=None, signature_covered_part=[],
+                                                                               signature_value_buf=None, digest_covered_part=[],
+                                                                               digest_value_buf=None)))
 
 
 @contract
